@@ -116,7 +116,19 @@ func kindOf(t types.Type) reflect.Kind {
 	return reflect.Invalid
 }
 
+func anonTuple(t *types.Tuple) *types.Tuple {
+	vs := make([]*types.Var, t.Len())
+	for i := range vs {
+		vs[i] = types.NewVar(0, nil, "", t.At(i).Type())
+	}
+	return types.NewTuple(vs...)
+}
+
 func reflectTypeString(t types.Type) string {
+	if sig, ok := t.(*types.Signature); ok {
+		// reflect prints function types without parameter names
+		t = types.NewSignatureType(nil, nil, nil, anonTuple(sig.Params()), anonTuple(sig.Results()), sig.Variadic())
+	}
 	s := typeStr(t)
 	s = strings.ReplaceAll(s, "interface{}", "interface {}")
 	if s == "any" {
